@@ -1,5 +1,8 @@
 """C05 — every reply is the prescribed one, well-formed and correctly addressed."""
-from . import gwfam, gw
+import random
+
+from . import common, gwfam, gw
+from .common import digest
 
 THEOREMS = ["MySensors.C05.value_request_reply", "MySensors.C05.unknown_gets_presentation_request",
             "MySensors.C05.requestPresentation_spec", "MySensors.C05.config_reply", "MySensors.C05.time_reply",
@@ -31,15 +34,46 @@ def carryable_only(rng, version, hist):
 
 CFG = {"quick": 300, "thorough": 10000, "lengths": [12, 25, 40], "malformed": 0.12,
        "bias": {"req": 2.5, "internal": 2, "idreq": 2, "clock": 3, "metric": 3, "ctl_set": 1.5},
-       "post": [gw.pending_pair_burst, carryable_only]}
+       "post": [gw.pending_pair_burst, gw.text_echo_burst, carryable_only]}
 
 
 def relevant(hist, obs):
     return sum(1 for o in obs if not o.startswith("sent=-")) >= 2
 
 
+def threaded_part(res, rng, tier):
+    """The same prescribed replies on the threaded gateway (real SyncTasks, jobs queued and run by the real
+    poll loop one iteration at a time, queue drained after every line, so no ordering question arises): what
+    goes out must be what the asyncio gateway sends for the same lines."""
+    from . import c19
+    for k in range((25 if tier == "quick" else 400) * common.effort(tier)):
+        version = rng.choice(["2.0", "2.1", "2.2", "1.5"])
+        hist = gw.gen_history(rng, version, rng.choice([10, 20]), persist=False, ota=False, sleep=True, malformed=0.05)
+        hist = [op for op in gw.pending_pair_burst(rng, version, hist) if op[0] in ("L", "S")]
+        toks = c19.make_schedule(rng, hist, "drained")
+        sync = c19.run_sync(version, toks)
+        a_em, a_state, _ = c19.run_async(version, toks)
+        res.evaluations += 1
+        res.count("threaded-histories")
+        s_out, a_out = [x for x, _ in sync.emitted], [x for x, _ in a_em]
+        if s_out:
+            res.distinct.add(digest(["threaded", s_out]))
+        if sorted(s_out) != sorted(a_out):
+            import collections
+            cs, ca = collections.Counter(s_out), collections.Counter(a_out)
+            only_s, only_a = list((cs - ca).elements()), list((ca - cs).elements())
+            res.oracle_failures.append({
+                "key": {"kind": "threaded-gateway-replies-differ"},
+                "what": f"protocol {version}: the threaded gateway sent {only_s[:4]!r} where the asyncio gateway sent "
+                        f"{only_a[:4]!r} for the same lines (queue drained after every line)",
+                "replay": {"op": "threaded", "version": version, "tokens": c19.toks_json(toks)}})
+            if len(res.oracle_failures) > 5:
+                break
+
+
 def run(tier, seed, driver):
     res = gwfam.run_family("C05", tier, seed, driver, CFG, relevant)
+    threaded_part(res, random.Random(seed * 7919 + 5), tier)
     res.rule = ("histories over all versions/kinds biased to value requests (with and without stored / desired "
                 "values), config / time / id requests, gateway-ready, messages from unknown nodes and children, "
                 "clock and metric changes; the oracle recomputes the prescribed reply per step and re-decodes and "
@@ -48,4 +82,14 @@ def run(tier, seed, driver):
 
 
 def replay(payload):
+    r = payload.get("replay") or {}
+    if r.get("op") == "threaded":
+        from . import c19
+        toks = c19.toks_from_json(r["tokens"])
+        sync = c19.run_sync(r["version"], toks)
+        a_em, _, _ = c19.run_async(r["version"], toks)
+        s_out, a_out = [x for x, _ in sync.emitted], [x for x, _ in a_em]
+        print("threaded:", s_out)
+        print("asyncio :", a_out)
+        return 1 if sorted(s_out) != sorted(a_out) else 0
     return gwfam.replay_family("C05", payload)
